@@ -15,4 +15,5 @@ let lookup (p : string) : Model.val0 -> Model.val0 =
   | "C12" -> Model.run_C12
   | "C19" -> Model.run_C19
   | "C07" -> Model.run_C07
+  | "C06" -> Model.run_C06
   | _ -> failwith ("unknown property " ^ p)
